@@ -153,11 +153,14 @@ def work(case):
     if edits is None:
         edits = editgen.gen_batch(rng, case["doc"], texts, rng.randint(1, 4), editgen.KINDS_C02, allow_collisions=True)
     runs = []
+    hz = None
     for order in (orders_of(rng, edits) if edits else []):
         r = engine_run.run_edits(data, order)
         runs.append({"order": [e["target"] for e in order], "res": {k: v for k, v in r.items() if k != "out_bytes"}})
+        # the last order of the batch goes to the Lean model of the heuristic path as well
+        hz = {"edits": order, "res": runs[-1]["res"]}
     case = dict(case, edits=edits)
-    return {"case": case, "runs": runs, "fuzzy_dom": any(fuzzy_raw_hit(texts, e) for e in edits),
+    return {"case": case, "runs": runs, "heur": hz, "fuzzy_dom": any(fuzzy_raw_hit(texts, e) for e in edits),
             "sample": {"edits": [(e["target"], e["new"], e["kind"]) for e in edits]}}
 
 
